@@ -1141,6 +1141,9 @@ static const uint8_t *unmarshal_one_fiber(
         janet_asserttype(funcv, JANET_FUNCTION, st);
         func = janet_unwrap_function(funcv);
         def = func->def;
+        if (NULL == def) {
+            janet_panic("fiber stackframe has incomplete function");
+        }
 
         /* Check env */
         if (frameflags & JANET_STACKFRAME_HASENV) {
@@ -1156,8 +1159,16 @@ static const uint8_t *unmarshal_one_fiber(
         if (pcdiff >= def->bytecode_length) {
             janet_panic("fiber stackframe has invalid pc");
         }
+        /* A frame that is returned into must be suspended at a call instruction */
+        if (stack != frame && (def->bytecode[pcdiff] & 0x7F) != JOP_CALL) {
+            janet_panic("fiber stackframe is not suspended at a call");
+        }
         if ((int32_t)(prevframe + JANET_FRAME_SIZE) > stack) {
             janet_panic("fiber stackframe does not align with previous frame");
+        }
+        /* Returning from the bottom frame must leave the interpreter */
+        if (prevframe == 0 && !(frameflags & JANET_STACKFRAME_ENTRANCE)) {
+            janet_panic("fiber bottom stackframe is not an entrance frame");
         }
 
         /* Get stack items */
@@ -1195,6 +1206,13 @@ static const uint8_t *unmarshal_one_fiber(
         data = unmarshal_one(st, data, &fiberv, flags + 1);
         janet_asserttype(fiberv, JANET_FIBER, st);
         fiber->child = janet_unwrap_fiber(fiberv);
+        /* The chain of child fibers must not lead back to this fiber */
+        for (JanetFiber *c = fiber->child; c != NULL; c = c->child) {
+            if (c == fiber) {
+                fiber->child = NULL;
+                janet_panic("fiber child chain is cyclic");
+            }
+        }
     }
 
     /* Get the fiber last value */
@@ -1215,6 +1233,20 @@ static const uint8_t *unmarshal_one_fiber(
     /* A fiber without any stack frame can never run again */
     if (frame == 0 && status != JANET_STATUS_DEAD) {
         janet_panic("fiber has no stack frames but is not dead");
+    }
+    /* Resuming stores a value in operand A of the current instruction and moves to the next one */
+    if (frame > 0 && status != JANET_STATUS_DEAD && status != JANET_STATUS_ERROR &&
+            !(status >= JANET_STATUS_USER0 && status <= JANET_STATUS_USER4)) {
+        JanetStackFrame *top = janet_fiber_frame(fiber);
+        JanetFuncDef *topdef = top->func->def;
+        int32_t toppc = (int32_t)(top->pc - topdef->bytecode);
+        if (!(fiber_flags & JANET_FIBER_RESUME_NO_USEVAL) &&
+                (int32_t)((*top->pc >> 8) & 0xFF) >= topdef->slotcount) {
+            janet_panic("fiber is suspended at an instruction that cannot receive a value");
+        }
+        if (!(fiber_flags & JANET_FIBER_RESUME_NO_SKIP) && toppc + 1 >= topdef->bytecode_length) {
+            janet_panic("fiber is suspended at the last instruction");
+        }
     }
 
     /* Return data */
